@@ -328,8 +328,27 @@ def rule_signature_structure(ctx, cfg, prog):
         for p in g.paths(h, {h}, allow_back_edges=1):
             if p[-1][0] != h:
                 continue
-            matched = any(g.nodes[nid].kind == 'cond' and lab is True and strip(g.nodes[nid].ast).get('op') == '==' and
-                          '.idx' in pr.canon(strip(g.nodes[nid].ast)['lhs'], lb) and '.idx' in pr.canon(strip(g.nodes[nid].ast)['rhs'], lb) for (nid, lab) in p)
+            # the slot index and the attribute index compare equal on this path: read from ALL their comparisons (any operator / order)
+            from . import grpdom, schemespec
+            try:
+                seg_, conds_ = grpdom.run_path(prog, sp, g, p)
+            except grpdom.Unsupported as ex:
+                raise bm.AnalysisBroken('R-CURSOR cannot model a path of the fill loop of sign_precomputed: %s' % ex)
+            if seg_ is None:
+                continue
+            # the pair compared LAST on the path (the attribute cursor may have moved through the skip loop before)
+            sa_ = aa_ = []
+            for (k_, lab_) in conds_:
+                if k_[0] == 'cmp' and k_[2].endswith('.idx') and k_[3].endswith('.idx'):
+                    ops = (k_[2], k_[3])
+                    s1 = [o for o in ops if o.startswith('sk.')]
+                    a1 = [o for o in ops if 'attrs' in o and not o.startswith('sk.')]
+                    if len(s1) == 1 and len(a1) == 1:
+                        sa_, aa_ = s1, a1
+            poss_ = schemespec.order(conds_, sa_[0], aa_[0]) if (len(sa_) == 1 and len(aa_) == 1) else {'lt', 'eq', 'gt'}
+            if not poss_:
+                continue
+            matched = poss_ == {'eq'}
             inc = sum(incs_in(g.nodes[nid].ast, kid) for (nid, lab) in p if g.nodes[nid].kind == 'stmt' and g.nodes[nid].ast is not None)
             contributes = any(c['name'] == 'multiply' and any('.hexp' in pr.canon(a, lb) for a in c['args']) for (nid, lab) in p
                               if g.nodes[nid].kind == 'stmt' and g.nodes[nid].ast is not None for c in pr.calls(g.nodes[nid].ast))
